@@ -62,7 +62,17 @@ impl<T: Qcow2IoOps> Qcow2Dev<T> {
     #[inline]
     pub(crate) async fn call_fsync(&self, offset: u64, len: usize, flags: u32) -> Qcow2Result<()> {
         log::trace!("fsync off {:x} len {} flags {}", offset, len, flags);
-        self.file.fsync(offset, len, flags).await
+
+        // zeroing of new clusters completed by now is covered by one
+        // whole-file sync submitted from now on
+        let zeroed = self.zeroed_clusters.load(Ordering::Relaxed);
+
+        self.file.fsync(offset, len, flags).await?;
+        if offset == 0 && len == usize::MAX {
+            self.synced_zeroed_clusters
+                .fetch_max(zeroed, Ordering::Relaxed);
+        }
+        Ok(())
     }
 
     async fn load_top_table<B: Table>(&self, top: &AsyncRwLock<B>, off: u64) -> Qcow2Result<usize> {
@@ -112,7 +122,7 @@ impl<T: Qcow2IoOps> Qcow2Dev<T> {
                 let res = async {
                     // figure exact dependency on refcount cache & reftable entries
                     self.flush_refcount().await?;
-                    self.flush_cache_entries(to_kill.clone()).await
+                    self.flush_cache_entries(to_kill.clone(), true).await
                 }
                 .await;
 
@@ -177,6 +187,7 @@ impl<T: Qcow2IoOps> Qcow2Dev<T> {
     pub(crate) async fn flush_cache_entries<B: Table>(
         &self,
         v: Vec<(usize, AsyncLruCacheEntry<AsyncRwLock<B>>)>,
+        mapping: bool,
     ) -> Qcow2Result<()> {
         let info = &self.info;
         let tv = &v;
@@ -286,6 +297,70 @@ impl<T: Qcow2IoOps> Qcow2Dev<T> {
             }
         }
 
+        if mapping {
+            // These slices are mapping tables, and they are read locked now, so
+            // no mapping can be added any more. Every cluster they map has got
+            // its refcount in ram before it was mapped, but possibly after the
+            // last refcount flush, if someone allocates while metadata is
+            // being flushed. Flush refcounts now, so that none of these
+            // mappings reaches the disk before the refcount it depends on.
+            //
+            // These mappings may also point to new data clusters which aren't
+            // zeroed yet, or are being zeroed by their first writer (mappings
+            // are made before the data is written): zero them now, or wait
+            // for that, and sync, otherwise a crash may keep the mapping with
+            // the stale content of the cluster's previous use.
+            let new_data_clusters: Vec<u64> = {
+                let cls_map = self.new_cluster.read().await;
+                let mut clusters = Vec::new();
+
+                for cache in cache_vec.iter() {
+                    for i in 0..cache.entries() {
+                        let e = crate::meta::L2Entry(cache.get(i).into_plain());
+                        let off = e.cluster_offset();
+
+                        if !e.is_compressed()
+                            && off != 0
+                            && cls_map.contains_key(&(off >> info.cluster_bits()))
+                        {
+                            clusters.push(off);
+                        }
+                    }
+                }
+                clusters
+            };
+
+            let res = async {
+                for host_off in new_data_clusters.iter() {
+                    self.settle_new_meta_cluster(*host_off).await?;
+                }
+
+                let res: std::pin::Pin<Box<dyn std::future::Future<Output = Qcow2Result<()>> + '_>> =
+                    Box::pin(self.flush_refcount());
+                res.await?;
+
+                // The zeroing of every cluster mapped by these slices is
+                // completed now, but the refcount flush syncs only if it has
+                // written something, and one sync in flight when the zeroing
+                // was completed doesn't cover it
+                if self.synced_zeroed_clusters.load(Ordering::Relaxed)
+                    < self.zeroed_clusters.load(Ordering::Relaxed)
+                {
+                    self.call_fsync(0, usize::MAX, 0).await?;
+                }
+                Ok(())
+            }
+            .await;
+
+            if let Err(e) = res {
+                for e in flushing {
+                    e.set_dirty(true);
+                }
+                self.mark_need_flush(true);
+                return Err(e);
+            }
+        }
+
         let mut f_vec = Vec::new();
         for cache in cache_vec.iter() {
             log::trace!(
@@ -340,6 +415,7 @@ impl<T: Qcow2IoOps> Qcow2Dev<T> {
         cache: &AsyncLruCache<usize, AsyncRwLock<C>>,
         start: usize,
         end: usize,
+        mapping: bool,
     ) -> Qcow2Result<bool> {
         let entries = cache.get_dirty_entries(start, end);
 
@@ -351,7 +427,7 @@ impl<T: Qcow2IoOps> Qcow2Dev<T> {
                 end,
             );
 
-            self.flush_cache_entries(entries).await?;
+            self.flush_cache_entries(entries, mapping).await?;
             Ok(true)
         } else {
             Ok(false)
@@ -394,6 +470,7 @@ impl<T: Qcow2IoOps> Qcow2Dev<T> {
         rt: &A,
         cache: &AsyncLruCache<usize, AsyncRwLock<B>>,
         key_fn: F,
+        mapping: bool,
     ) -> Qcow2Result<bool>
     where
         F: Fn(u64) -> usize,
@@ -405,7 +482,7 @@ impl<T: Qcow2IoOps> Qcow2Dev<T> {
             let end = key_fn(((idx + 1) as u64) << bs_bits);
 
             let res = async {
-                if self.flush_cache(cache, start, end).await? {
+                if self.flush_cache(cache, start, end, mapping).await? {
                     // order cache flush and the upper layer table
                     self.call_fsync(0, usize::MAX, 0).await?;
                 }
@@ -421,7 +498,7 @@ impl<T: Qcow2IoOps> Qcow2Dev<T> {
             res.map(|_| false)
         } else {
             // flush cache without holding top table read lock
-            if self.flush_cache(cache, 0, usize::MAX).await? {
+            if self.flush_cache(cache, 0, usize::MAX, mapping).await? {
                 self.call_fsync(0, usize::MAX, 0).await?;
             }
             Ok(true)
@@ -462,9 +539,12 @@ impl<T: Qcow2IoOps> Qcow2Dev<T> {
         loop {
             let rt = &*self.reftable.read().await;
             let done = self
-                .flush_meta_generic(rt, &self.refblock_cache, |off| {
-                    self.rb_slice_key_of_rt_off(off)
-                })
+                .flush_meta_generic(
+                    rt,
+                    &self.refblock_cache,
+                    |off| self.rb_slice_key_of_rt_off(off),
+                    false,
+                )
                 .await?;
             if done {
                 break;
@@ -486,7 +566,12 @@ impl<T: Qcow2IoOps> Qcow2Dev<T> {
     pub(crate) async fn flush_mapping(&self, l1: &L1Table) -> Qcow2Result<()> {
         loop {
             let done = self
-                .flush_meta_generic(l1, &self.l2cache, |off| self.l2_slice_key_of_l1_off(off))
+                .flush_meta_generic(
+                    l1,
+                    &self.l2cache,
+                    |off| self.l2_slice_key_of_l1_off(off),
+                    true,
+                )
                 .await?;
             if done {
                 break;
@@ -537,8 +622,19 @@ impl<T: Qcow2IoOps> Qcow2Dev<T> {
         // problem
         let l1 = &*self.l1table.read().await;
 
-        self.flush_meta_generic(l1, &self.l2cache, |off| self.l2_slice_key_of_l1_off(off))
-            .await
+        // One l2 table hooked into l1 table after the flush above has its
+        // cluster's refcount in ram only. No entry can be added to l1 table
+        // from now on, so flush refcounts once more (nothing to do usually)
+        // before any l1 block is written.
+        self.flush_refcount().await?;
+
+        self.flush_meta_generic(
+            l1,
+            &self.l2cache,
+            |off| self.l2_slice_key_of_l1_off(off),
+            true,
+        )
+        .await
     }
 }
 
